@@ -491,6 +491,13 @@ impl Check for C13 {
         ] {
             cases.push(Case::new(format!("r := 0\na := 0\nprint(\"pre\")\n{}print(\"accepted\")\n", bad), T_EXPECT_ERR, format!("misplaced marker {:?}", bad.replace('\n', " "))));
         }
+        // what a pattern bound in one iteration or call stays what it was
+        for prog in [
+            "ps := []\nfor p in [5, 6, 7] {\nps += [p]\n}\nprint(ps)\nqs := []\nfor [i, ..r] in [[1, 2], [3]] {\nqs += [r]\n}\nprint(qs)\nfs := []\nfor p in {\"a\": 1, \"b\": 2} {\nfs += [fn () {\nreturn p\n}]\n}\nprint([fs[0](), fs[1]()])\n",
+            "keep := []\nfn f(..r) {\nkeep += [r]\nreturn r\n}\nf(1)\nf(2, 3)\nprint(keep)\nfn g([a, ..t], {k, ..m}) {\nkeep += [t, m]\n}\ng([1, 2], {\"k\": 0, \"z\": 9})\ng([3], {\"k\": 1})\nprint(keep)\n",
+        ] {
+            cases.push(Case::new(prog.to_string(), T_REF, "values bound by patterns kept past their iteration or call".to_string()));
+        }
         // the round trips hold every time they are evaluated, not only the first
         for prog in [
             "o := {\"a\": 1, \"k\": 2, \"z\": 3}\n{a, \"k\": b, ..rest} := o\nprint({\"a\": a, \"k\": b, rest..} == o)\nprint({\"a\": a, \"k\": b, rest..} == o)\nprint(rest)\nprint({rest.., rest..})\nprint(o)\nc := {o..}\nd := {o..}\nprint(c == d)\nprint(o)\n",
